@@ -351,3 +351,31 @@ Definition venv_of (tbl : list (valid * (bool * bool * bool))) : venv :=
   let look (f : bool * bool * bool -> bool) (v : valid) :=
     match find (fun e => Z.eqb (fst e) v) tbl with Some e => f (snd e) | None => false end in
   {| isarr := look (fun t => fst (fst t)); small_raw := look (fun t => snd (fst t)); small_enc := look (fun t => snd t) |}.
+
+Definition shape_eqb (a b : option (list key * list key * list key)) : bool :=
+  match a, b with
+  | None, None => true
+  | Some (p, r, e), Some (p', r', e') => key_list_eqb p p' && key_list_eqb r r' && key_list_eqb e e'
+  | _, _ => false
+  end.
+
+(* one correspondence case: configuration, value table, operations, the results the real store gave
+   (key collections sorted), and for a file store the final split packed / raw files / encoded files *)
+Definition case_ok (c : sconfig * list (valid * (bool * bool * bool)) * list sop * list sres
+                        * option (list key * list key * list key)) : bool :=
+  match c with
+  | (cfg, tbl, ops, obs, shape) =>
+      let '(out, sh) := model_run cfg (venv_of tbl) ops in
+      sres_list_eqb out obs && shape_eqb sh shape
+  end.
+
+Definition frame_code (f : frame) : nat :=
+  match f with FEmpty => 0 | FRaw => 1 | FPickle => 2 | FNumpy => 3 end.
+
+(* (compress_numpy, isnone, isarr, observed code of the file, observed code of encode()) *)
+Definition frame_case_ok (c : bool * bool * bool * nat * nat) : bool :=
+  match c with
+  | (compress, isnone, isarr, ffile, fstream) =>
+      Nat.eqb (frame_code (file_frame compress isnone isarr)) ffile &&
+      Nat.eqb (frame_code (stream_frame isnone isarr)) fstream
+  end.
